@@ -1222,6 +1222,7 @@ func runC19(c *Ctx) {
 	c.r1923(x)
 	c.r1924(x)
 	c.r1925(x)
+	c.r1926(x)
 	// a bundle written onto one of its inputs: the input is truncated by the open before the lazy reader gets to it,
 	// so the output silently lacks that file — the ordering rule of C20 is a condition of "the library's output" too
 	c.alsoUnder(map[string]string{"R20.1": "R19.13"}, nil, func() { c.r201(x) })
@@ -3268,4 +3269,62 @@ func (c *Ctx) r1925(x *cliCtx) {
 		return true
 	})
 	c.R.Floor(rule, "hidden-name tests in the walk", n, 1)
+}
+
+// R19.26: the result of a loop over a map does not depend on the order of the map.
+func (c *Ctx) r1926(x *cliCtx) {
+	const rule = "R19.26"
+	c.R.Rule(rule, "Go iterates over a map in a different order on every run. A loop over a map that writes into a map M and also reads M sees, for some orders, its own earlier writes: `--ext '{inc:php,php:html}'` resolved `inc` through the `php` entry that the same loop had or had not replaced yet, and the same command line minified a file as PHP in one run and as HTML in the next. In package cmd/minify no loop over a map reads a map that its body assigns to")
+	info := x.info
+	n := 0
+	for _, fd := range load.FuncDecls(x.pk) {
+		if fd.Body == nil {
+			continue
+		}
+		ast.Inspect(fd.Body, func(z ast.Node) bool {
+			rs, ok := z.(*ast.RangeStmt)
+			if !ok {
+				return true
+			}
+			if t := info.TypeOf(rs.X); t == nil {
+				return true
+			} else if _, isMap := t.Underlying().(*types.Map); !isMap {
+				return true
+			}
+			n++
+			written := map[types.Object]bool{}
+			lhs := map[ast.Node]bool{}
+			ast.Inspect(rs.Body, func(q ast.Node) bool {
+				if as, ok := q.(*ast.AssignStmt); ok {
+					for _, l := range as.Lhs {
+						if ix, ok := l.(*ast.IndexExpr); ok {
+							if _, isMap := info.TypeOf(ix.X).Underlying().(*types.Map); isMap {
+								if id, ok := ast.Unparen(ix.X).(*ast.Ident); ok {
+									written[info.Uses[id]] = true
+									lhs[ix] = true
+								}
+							}
+						}
+					}
+				}
+				return true
+			})
+			var bad []string
+			ast.Inspect(rs.Body, func(q ast.Node) bool {
+				if lhs[q] {
+					return false
+				}
+				if ix, ok := q.(*ast.IndexExpr); ok {
+					if id, ok := ast.Unparen(ix.X).(*ast.Ident); ok && written[info.Uses[id]] {
+						bad = append(bad, str(ix)+" at "+c.pos(ix))
+					}
+				}
+				return true
+			})
+			c.R.Check(len(bad) == 0, rule, fmt.Sprintf("main.%s/range over map %s does not read what it writes", load.FuncName(fd), str(rs.X)), c.pos(rs), "no map is both assigned to and read in the body",
+				"the loop reads a map it assigns to ("+strings.Join(bad, ", ")+"): what it reads depends on which keys were visited before, and the order of a map differs from run to run")
+			return true
+		})
+	}
+	c.R.Floor(rule, "loops over maps in cmd/minify", n, 1)
 }
